@@ -428,6 +428,19 @@ def gen_case(seed, tier, i):
     while steps < nsteps:
         r = rng.random()
         b = rng.randrange(nbuf) if opened is None else opened
+        if opened is not None and rng.random() < 0.15:
+            # the unsaved edits are discarded (file reloaded from disk) and the file is asked about
+            # in the path-only form Script(path=...): jedi reads the saved text itself
+            disk = w.files[w.mods[mname]['path']]
+            q = {'op': 'query', 'code': None, 'path': bufs[opened]['path'], 'project': {'path': '.'},
+                 'probes': sample_probes(rng, disk, rng.randint(4, 8)), 'tree': True, 'buf': bufs[opened]['name']}
+            if bufs[opened].get('relpath'):
+                q['relpath'] = True
+            ops.append(q)
+            editors[opened].lines = disk.split('\n')[:-1]
+            bufs[opened]['last'] = []
+            steps += 1
+            continue
         if r < 0.62:
             ops.append(_query(rng, bufs[b], editors[b].step()))
             steps += 1
@@ -556,7 +569,11 @@ class C08(base.Engine):
                 stats['diff_parsed_steps'] += 1
             if cache.get('evict_branch'):
                 stats['evict_branch'] += 1
-            if res.get('tree') != res.get('tree_fresh'):
+            if res.get('tree') != res.get('tree_fresh') and cache.get('diff_parse'):
+                # the diff parser ran during this step and the tree differs from a from-scratch
+                # parse: parso's promise is broken, the statement's precondition fails, skip.
+                # (A differing tree WITHOUT a diff parse was not re-parsed incrementally at all -
+                # e.g. a stale cached tree handed out as is - and is judged like any other step.)
                 stats['diverged_trees'] += 1
                 continue
             o = run_oracle(case, op)
